@@ -19,7 +19,7 @@ def run(ctx):
     # kernel: the fixed-width extractor and the separator it charges for
     ll = ctx.build_ir('codec_c03.cpp', 'leaf', extra=['-DFIX8_MAX_FLD_LENGTH=24']); ctx.translate(ll, ['vf_extract_element', 'vf_extract_element_fw'], 'c03k_24.c')
     for n in ((6, 12) if ctx.tier == 'quick' else (4, 6, 9, 12, 16)):
-        ctx.add(Harness('C06_fw_sep_n%d' % n, VERIF + '/harness/C03_ext.c', defines=defs + codec.kf_defines_for(ctx, 'C03') + ['NIN=%d' % n, 'CAPT=24', 'CAPV=24', 'MODE=1', 'C06_SEP', 'KFILE="c03k_24.c"'], unwind=26, timeout=900,
+        ctx.add(Harness('C06_fw_sep_n%d' % n, VERIF + '/harness/C03_ext.c', defines=defs + ['NIN=%d' % n, 'CAPT=24', 'CAPV=24', 'MODE=1', 'C06_SEP', 'KFILE="c03k_24.c"'], unwind=26, timeout=900,
                         functions=['FIX8::MessageBase::extract_element_fixed_width'], bounds='every byte string of %d bytes, every val_sz <= 23' % n,
                         desc='a recognised fixed-width token ends inside the input with the field separator'))
     ctx.assumptions += codec.DECODE_ASSUMPTIONS + ['encode side of data fields (Field<f8String>::print) and data pairs inside repeating groups (FIX42UTEST: LinesOfText 354/355 - decode_group has no length handling) are outside these harnesses',
